@@ -210,9 +210,13 @@ func (r *rw) run() {
 
 func (r *rw) sitesVar() string { return "_vsites_" + r.tag }
 
-func strLit(s string) *ast.BasicLit { return &ast.BasicLit{Kind: token.STRING, Value: strconv.Quote(s)} }
-func intLit(i int) *ast.BasicLit    { return &ast.BasicLit{Kind: token.INT, Value: strconv.Itoa(i)} }
-func vs(name string) ast.Expr       { return &ast.SelectorExpr{X: ast.NewIdent("vsched"), Sel: ast.NewIdent(name)} }
+func strLit(s string) *ast.BasicLit {
+	return &ast.BasicLit{Kind: token.STRING, Value: strconv.Quote(s)}
+}
+func intLit(i int) *ast.BasicLit { return &ast.BasicLit{Kind: token.INT, Value: strconv.Itoa(i)} }
+func vs(name string) ast.Expr {
+	return &ast.SelectorExpr{X: ast.NewIdent("vsched"), Sel: ast.NewIdent(name)}
+}
 func call(fun ast.Expr, args ...ast.Expr) *ast.CallExpr {
 	return &ast.CallExpr{Fun: fun, Args: args}
 }
